@@ -312,7 +312,7 @@ class SimUdp(asyncio.DatagramTransport):
 class SimNet:
     """The simulated network: a table of TCP listeners and a UDP responder."""
 
-    ACCEPT, REFUSE, HANG = "accept", "refuse", "hang"
+    ACCEPT, REFUSE, HANG, UNREACHABLE, DNS = "accept", "refuse", "hang", "unreachable", "dns"
 
     def __init__(self) -> None:
         self.loop: VLoop = None  # set by VLoop
@@ -342,6 +342,13 @@ class SimNet:
         if verdict == self.REFUSE:
             await asyncio.sleep(self.connect_latency)
             raise ConnectionRefusedError(111, "Connect call failed", (host, port))
+        if verdict == self.UNREACHABLE:
+            await asyncio.sleep(self.connect_latency)
+            raise OSError(113, "Connect call failed (No route to host)", (host, port))
+        if verdict == self.DNS:
+            import socket
+            await asyncio.sleep(self.connect_latency)
+            raise socket.gaierror(-2, "Name or service not known")
         if verdict == self.HANG:
             await self.loop.create_future()  # only cancellation ends this
             raise AssertionError("unreachable")
